@@ -310,10 +310,10 @@ def fresh_state():
         for obj in vars(mod).values():
             if isinstance(obj, type) and isinstance(obj.__dict__.get('_cached'), dict):
                 obj.__dict__['_cached'].clear()
+    # the switch the reaction code reads is thermosteam.reaction.CHECK_FEASIBILITY (package attribute)
     from thermosteam import reaction as _r
-    rm = sys.modules.get('thermosteam.reaction._reaction')
-    if rm is not None and getattr(rm, 'CHECK_FEASIBILITY', True) is not True:
-        rm.CHECK_FEASIBILITY = True
+    if getattr(_r, 'CHECK_FEASIBILITY', True) is not True:
+        _r.CHECK_FEASIBILITY = True
 
 
 # ---------------------------------------------------------------------------
